@@ -489,13 +489,16 @@ class KRun:
             await self.body(me, body)
         except BaseException as e:
             exc = e
-        self.hist("aexit-begin", G, me, evcode(exc))
-        self.open[me] = self.emit(f"{me} aexit {G} {evcode(exc)}", None)
+        code_in = evcode(exc)
+        self.hist("aexit-begin", G, me, code_in)
+        self.open[me] = self.emit(f"{me} aexit {G} {code_in}", None)
         try:
             swallowed = await tg.__aexit__(type(exc) if exc is not None else None, exc, exc.__traceback__ if exc is not None else None)
         except BaseException as e2:
             # re-raising the very exception that was handed in: same classification as on the way in
-            code = evcode(exc) if e2 is exc else owncode(e2)
+            # (as classified THEN: re-raising inside __aexit__ can rewrite the object's __context__, e.g.
+            # when the whole `async with` runs inside a `finally:` of an exception in flight)
+            code = code_in if e2 is exc else owncode(e2)
             self.close(me, "done " + code)
             self.hist("aexit-end", G, me, code, self.handle_snapshot())
             self.q_scope(L, tg.cancel_scope)
@@ -605,8 +608,16 @@ class KRun:
         try:
             await self.body(T, self.p["tasks"][name])
         except BaseException as e:
-            self.emit(f"{T} finish {evcode(e)}", "ok")
-            self.hist("finish", T, evcode(e))
+            code = evcode(e)
+            if isinstance(e, asyncio.CancelledError):
+                # what the group's done-callback passes on (to a pending start() future) is the innermost
+                # CancelledError of the __context__ chain, as the code unwraps it
+                inner: BaseException = e
+                while isinstance(inner.__context__, asyncio.CancelledError):
+                    inner = inner.__context__
+                code = own1(inner)
+            self.emit(f"{T} finish {code}", "ok")
+            self.hist("finish", T, code)
             raise
         else:
             self.emit(f"{T} finish -", "ok")
